@@ -49,6 +49,13 @@ def c01(p, sc):
                 bad.append(f"resource {rid} slot {k}: {float(tot):.3f} s booked in a {G} s slot: {[(t, float(F(s))) for t, s in e['usage']]}")
             if any(F(s) < 0 for _, s in e["usage"]):
                 bad.append(f"resource {rid} slot {k}: negative booking")
+            # the slot's own total (bookings plus what a mid-slot start or a team alignment blocks) never exceeds the slot,
+            # and the portions of the tasks lie inside it
+            if e.get("used") is not None:
+                if F(e["used"]) > G + EPS:
+                    bad.append(f"resource {rid} slot {k}: {float(F(e['used'])):.3f} s used in a {G} s slot: {[(t, float(F(s))) for t, s in e['usage']]}")
+                if tot > F(e["used"]) + EPS:
+                    bad.append(f"resource {rid} slot {k}: the tasks' portions ({float(tot):.3f} s) exceed the slot's total ({float(F(e['used'])):.3f} s)")
             for tid, _ in e["usage"]:
                 if tid in tasks and not tasks[tid]["leaf"]:
                     bad.append(f"container task {tid} booked on {rid}")
